@@ -9,16 +9,16 @@ func (cw *CodeWriter) WriteLeadingComments(comments []string) {
 		isComment := len(comment) > 0
 		if i == 0 {
 			if isComment {
-				cw.Builder.WriteRune(' ')
+				cw.writeRaw(" ")
 			}
 		} else {
 			cw.writeNewline()
 			cw.writeIndent()
 		}
 		if isComment {
-			cw.Builder.WriteString("//")
+			cw.writeRaw("//")
 		}
-		cw.Builder.WriteString(comment)
+		cw.writeRaw(comment)
 	}
 
 	// Clear pendings and move to the next line
